@@ -4,6 +4,7 @@ import (
 	"bytes"
 	"context"
 	"fmt"
+	"math/big"
 	"os"
 	"os/exec"
 	"path/filepath"
@@ -38,6 +39,26 @@ func c20Docs() []doc {
 	}
 	for i, s := range genShapes3 {
 		add(fmt.Sprintf("shape%d", i), s, rm.IntV(7))
+	}
+	// a long payload (kept by reference by readers and writers) next to a short one of the same type
+	long := func(n int, b byte) []byte {
+		out := make([]byte, n)
+		for i := range out {
+			out[i] = b + byte(i%7)
+		}
+		return out
+	}
+	pairs := [][2]*rm.Value{
+		{rm.ClobV(long(70, 'A')), rm.ClobV([]byte("dd"))},
+		{rm.ClobV(long(200, 'a')), rm.ClobV(long(70, 'N'))},
+		{rm.BlobV(long(64, 1)), rm.BlobV([]byte{9, 8, 7})},
+		{rm.StrV(string(long(70, 'S'))), rm.StrV("tt")},
+		{rm.SymV(string(long(70, 's'))), rm.SymV("u")},
+		{rm.BigV(new(big.Int).Lsh(big.NewInt(5), 600)), rm.BigV(new(big.Int).Lsh(big.NewInt(3), 520))},
+	}
+	for i, p := range pairs {
+		add(fmt.Sprintf("long-short%d", i), p[0], p[1], rm.ListV(p[1], p[0]))
+		add(fmt.Sprintf("short-long%d", i), p[1], p[0], rm.StructV(p[0].F("f"), p[1].F("g")))
 	}
 	return out
 }
